@@ -245,61 +245,195 @@ theorem nc_noNL {tl : Nat} {C : List Token} (h : NoNL C) (h1 : tl ≤ 1) :
       simp only [nc, this]
       exact ih (fun y hy => hr y (by simp [hy]))
 
+/-! ### error sites: tokens not directly preceded by a Newline -/
+
+/-- The tokens of a list that do not directly follow a Newline token (`prevNL`: the token
+    before the list is a Newline). -/
+def okSitesAux : Bool → List Token → List Token
+  | _, [] => []
+  | prevNL, t :: r => (if prevNL then [] else [t]) ++ okSitesAux (t.ty = .newline) r
+
+def okSites (L : List Token) : List Token := okSitesAux false L
+
+/-- Is the last token a Newline (`p` for the empty list)? -/
+def lastNL (p : Bool) : List Token → Bool
+  | [] => p
+  | t :: r => lastNL (t.ty = .newline) r
+
+theorem okSitesAux_append (p : Bool) (L1 L2 : List Token) :
+    okSitesAux p (L1 ++ L2) = okSitesAux p L1 ++ okSitesAux (lastNL p L1) L2 := by
+  induction L1 generalizing p with
+  | nil => simp [okSitesAux, lastNL]
+  | cons t r ih => simp [okSitesAux, lastNL, ih]
+
+theorem lastNL_append (p : Bool) (L1 L2 : List Token) : lastNL p (L1 ++ L2) = lastNL (lastNL p L1) L2 := by
+  induction L1 generalizing p with
+  | nil => simp [lastNL]
+  | cons t r ih => simp [lastNL, ih]
+
+theorem okSitesAux_sub (p : Bool) (L : List Token) : ∀ t ∈ okSitesAux p L, t ∈ L := by
+  induction L generalizing p with
+  | nil => simp [okSitesAux]
+  | cons x r ih =>
+    intro t ht
+    simp only [okSitesAux, List.mem_append] at ht
+    rcases ht with h | h
+    · split at h <;> simp_all
+    · exact List.mem_cons_of_mem _ (ih _ t h)
+
+theorem okSitesAux_noNL {L : List Token} (h : NoNL L) (x : Token) : okSitesAux false (L ++ [x]) = L ++ [x] := by
+  induction L with
+  | nil => simp [okSitesAux]
+  | cons t r ih =>
+    have ht : t.ty ≠ .newline := h t (by simp)
+    have hr : NoNL r := fun y hy => h y (by simp [hy])
+    simp [okSitesAux, ht, ih hr]
+
+theorem lastNL_noNL {L : List Token} (h : NoNL L) : lastNL false L = false := by
+  induction L with
+  | nil => rfl
+  | cons t r ih =>
+    have ht : t.ty ≠ .newline := h t (by simp)
+    have hr : NoNL r := fun y hy => h y (by simp [hy])
+    simp only [lastNL, ht, decide_false]
+    exact ih hr
+
+/-- The automaton's counter is non-zero exactly when the last consumed token is a Newline. -/
+theorem nc_lastNL {tl tl' : Nat} {C : List Token} (h : nc tl C = some tl') :
+    (decide (tl' ≠ 0)) = lastNL (decide (tl ≠ 0)) C := by
+  induction C generalizing tl with
+  | nil => simp [nc] at h; simp [lastNL, h]
+  | cons t r ih =>
+    simp only [nc] at h
+    cases hs : ncStep tl t with
+    | none => simp [hs] at h
+    | some t1 =>
+      simp only [hs] at h
+      rw [ih h]
+      simp only [lastNL]
+      congr 1
+      unfold ncStep at hs
+      split at hs
+      · simp at hs
+      · simp at hs
+        by_cases hn : t.ty = .newline <;> simp [hn] at hs ⊢ <;> omega
+
 /-- `RC a tl b`: from `a` the parser reached `b`; what it consumed is accepted by the automaton
-    and ends in at most `tl` Newline tokens. -/
+    and ends in at most `tl` Newline tokens; the errors recorded on the way sit on consumed
+    tokens (or on the current one) that do not directly follow a Newline token. -/
 def RC (a : PState σ) (tl : Nat) (b : PState σ) : Prop :=
-  ∃ C tl0, Reach E a C b ∧ nc 0 C = some tl0 ∧ tl0 ≤ tl
+  ∃ C tl0 new, Reach E a C b ∧ nc 0 C = some tl0 ∧ tl0 ≤ tl ∧ b.errors = a.errors ++ new ∧
+    ∀ e ∈ new, ∃ t ∈ okSites (C ++ [b.current]), e.pos = t.pos
 
 theorem RC.any {a b : PState σ} {tl} (h : RC E a tl b) : ReachAny E a b := by
-  obtain ⟨C, _, r, _⟩ := h; exact ⟨C, r⟩
+  obtain ⟨C, _, _, r, _⟩ := h; exact ⟨C, r⟩
 
-theorem RC.refl (a : PState σ) : RC E a 0 a := ⟨[], 0, .refl a, rfl, Nat.le_refl _⟩
+theorem RC.refl (a : PState σ) : RC E a 0 a := ⟨[], 0, [], .refl a, rfl, Nat.le_refl _, by simp, by simp⟩
 
 theorem RC.mono {a b : PState σ} {tl tl'} (h : RC E a tl b) (hle : tl ≤ tl') : RC E a tl' b := by
-  obtain ⟨C, t0, r, n, l⟩ := h; exact ⟨C, t0, r, n, by omega⟩
+  obtain ⟨C, t0, new, r, n, l, e⟩ := h; exact ⟨C, t0, new, r, n, by omega, e⟩
 
-theorem RC.step {a b c : PState σ} {tl} (h : RC E a tl b) (t : Token) (r : Reach E b [t] c)
-    (h2 : 2 ≤ tl → t.ty = .indent) :
-    RC E a (if t.ty = .newline then tl + 1 else 0) c := by
-  obtain ⟨C, t0, r0, n, l⟩ := h
-  have hs : ncStep t0 t = some (if t.ty = .newline then t0 + 1 else 0) := by
+theorem okSites_prefix (L1 L2 : List Token) : ∀ t ∈ okSites L1, t ∈ okSites (L1 ++ L2) := by
+  intro t ht; unfold okSites at *; rw [okSitesAux_append]; simp [ht]
+
+theorem RC.step {a b : PState σ} {tl} (h : RC E a tl b) (hne : b.current.ty ≠ .eof)
+    (h2 : 2 ≤ tl → b.current.ty = .indent) :
+    RC E a (if b.current.ty = .newline then tl + 1 else 0) (advance E b) := by
+  obtain ⟨C, t0, new, r0, n, l, e1, e2⟩ := h
+  have hs : ncStep t0 b.current = some (if b.current.ty = .newline then t0 + 1 else 0) := by
     unfold ncStep
     rw [if_neg]
     intro ⟨h3, h4⟩
     exact h4 (h2 (by omega))
-  refine ⟨C ++ [t], (if t.ty = .newline then t0 + 1 else 0), .trans r0 r, ?_, ?_⟩
+  refine ⟨C ++ [b.current], (if b.current.ty = .newline then t0 + 1 else 0), new,
+    .trans r0 (.adv b hne), ?_, ?_, by simpa [advance] using e1, ?_⟩
   · rw [nc_append, n]; simp [nc, hs]
   · split <;> omega
+  · intro e he
+    obtain ⟨t, ht, hp⟩ := e2 e he
+    exact ⟨t, okSites_prefix _ _ t ht, hp⟩
 
 theorem RC.advNL {a st : PState σ} {tl} (h : RC E a tl st) (h1 : st.current.ty = .newline) (h2 : tl ≤ 1) :
     RC E a (tl + 1) (advance E st) := by
-  have := RC.step E h st.current (.adv st (by simp [h1])) (by omega)
+  have := RC.step E h (by simp [h1]) (by omega)
   simpa [h1] using this
 
 theorem RC.advIndent {a st : PState σ} {tl} (h : RC E a tl st) (h1 : st.current.ty = .indent) :
     RC E a 0 (advance E st) := by
-  have := RC.step E h st.current (.adv st (by simp [h1])) (fun _ => h1)
+  have := RC.step E h (by simp [h1]) (fun _ => h1)
   simpa [h1] using this
 
 theorem RC.advOther {a st : PState σ} {tl} (h : RC E a tl st) (h0 : st.current.ty ≠ .eof)
     (h1 : st.current.ty ≠ .newline) (h2 : tl ≤ 1) : RC E a 0 (advance E st) := by
-  have := RC.step E h st.current (.adv st h0) (by omega)
+  have := RC.step E h h0 (by omega)
   simpa [h1] using this
 
-theorem RC.silent {a b c : PState σ} {tl} (h : RC E a tl b) (r : Reach E b [] c) : RC E a tl c := by
-  obtain ⟨C, t0, r0, n, l⟩ := h
-  exact ⟨C ++ [], t0, .trans r0 r, by simpa using n, l⟩
+/-- Recording an error at the current token is allowed when the last consumed token is not a
+    Newline. -/
+theorem RC.err {a st : PState σ} (h : RC E a 0 st) (msg) : RC E a 0 (error st msg) := by
+  obtain ⟨C, t0, new, r0, n, l, e1, e2⟩ := h
+  have ht0 : t0 = 0 := by omega
+  subst ht0
+  have hl : lastNL false C = false := by
+    have := nc_lastNL n; simpa using this.symm
+  refine ⟨C ++ [], 0, new ++ [⟨msg, st.current.pos⟩], .trans r0 (.err st msg), by simpa using n,
+    Nat.le_refl _, by simp [error, errorAt, e1], ?_⟩
+  intro e he
+  simp only [List.mem_append, List.mem_singleton] at he
+  rcases he with he | he
+  · obtain ⟨t, ht, hp⟩ := e2 e he
+    exact ⟨t, by simpa [error, errorAt] using ht, hp⟩
+  · refine ⟨st.current, ?_, by rw [he]⟩
+    simp only [List.append_nil, error, errorAt, okSites]
+    rw [okSitesAux_append, hl]
+    simp [okSitesAux]
 
-theorem RC.err {a st : PState σ} {tl} (h : RC E a tl st) (msg) : RC E a tl (error st msg) :=
-  RC.silent E h (.err st msg)
+theorem RC.year {a st : PState σ} {tl} (h : RC E a tl st) (y) : RC E a tl { st with defaultYear := y } := by
+  obtain ⟨C, t0, new, r0, n, l, e1, e2⟩ := h
+  exact ⟨C ++ [], t0, new, .trans r0 (.year st y), by simpa using n, l, e1, by simpa using e2⟩
 
-theorem RC.year {a st : PState σ} {tl} (h : RC E a tl st) (y) : RC E a tl { st with defaultYear := y } :=
-  RC.silent E h (.year st y)
-
-theorem RC.line {a b c : PState σ} {tl} (h : RC E a tl b) (hl : ReachL E b c) (h1 : tl ≤ 1) : RC E a tl c := by
-  obtain ⟨C, t0, r0, n, l⟩ := h
+/-- A line-internal function run when the last consumed token is not a Newline. -/
+theorem RC.line {a b c : PState σ} (h : RC E a 0 b) (hl : ReachL E b c) : RC E a 0 c := by
+  obtain ⟨C, t0, new, r0, n, l, e1, e2⟩ := h
+  have ht0 : t0 = 0 := by omega
+  subst ht0
   obtain ⟨C2, r2, nn⟩ := hl
-  obtain ⟨t1, e1, l1⟩ := nc_noNL (tl := t0) nn (by omega)
-  exact ⟨C ++ C2, t1, .trans r0 r2, by rw [nc_append, n]; simpa using e1, by omega⟩
+  obtain ⟨t1, n1, l1⟩ := nc_noNL (tl := 0) nn (by omega)
+  have hlC : lastNL false C = false := by
+    have := nc_lastNL n; simpa using this.symm
+  obtain ⟨new2, f1, f2⟩ := r2.errors E
+  refine ⟨C ++ C2, t1, new ++ new2, .trans r0 r2, by rw [nc_append, n]; simpa using n1, by omega,
+    by rw [f1, e1, List.append_assoc], ?_⟩
+  intro e he
+  simp only [List.mem_append] at he
+  have hsplit : okSites (C ++ C2 ++ [c.current]) = okSitesAux false C ++ (C2 ++ [c.current]) := by
+    unfold okSites
+    rw [List.append_assoc, okSitesAux_append, hlC, okSitesAux_noNL nn]
+  rcases he with he | he
+  · obtain ⟨t, ht, hp⟩ := e2 e he
+    refine ⟨t, ?_, hp⟩
+    rw [hsplit]
+    unfold okSites at ht
+    rw [okSitesAux_append, hlC] at ht
+    simp only [List.mem_append] at ht ⊢
+    rcases ht with ht | ht
+    · exact Or.inl ht
+    · simp only [okSitesAux, Bool.false_eq_true, if_false, List.append_nil, List.mem_singleton] at ht
+      right
+      have := r2.current_mem E
+      rw [ht]
+      simpa using this
+  · obtain ⟨t, ht, hp⟩ := f2 e he
+    refine ⟨t, ?_, hp⟩
+    rw [hsplit]
+    simp only [List.mem_append] at ht ⊢
+    exact Or.inr (by simpa using ht)
+
+/-- What one gets out of `RC` in the end. -/
+theorem RC.elim {a b : PState σ} {tl} (h : RC E a tl b) :
+    ∃ C new, Reach E a C b ∧ (nc 0 C).isSome ∧ b.errors = a.errors ++ new ∧
+      ∀ e ∈ new, ∃ t ∈ okSites (C ++ [b.current]), e.pos = t.pos := by
+  obtain ⟨C, t0, new, r, n, _, e1, e2⟩ := h
+  exact ⟨C, new, r, by simp [n], e1, e2⟩
 
 end HL.Parser
